@@ -40,22 +40,8 @@ def protein_case(draw):
     desc = draw(e2e.structure(max_chains=3, nmax=5, contact=False, waters=True, variants=0.3, cif=True))
     hidden = False
     if len(desc["chains"]) > 1 and draw(st.integers(0, 2)) == 0:
-        # hidden chain end: same chain id, no TER, OXT present on the first part
-        a, b = desc["chains"][0], desc["chains"][1]
-        if a["start"] > 9000:
-            a["start"] = 1
-        a["oxt"], a["ter"] = True, False
-        for ch_ in desc["chains"]:
-            ch_.pop("altmod", None)  # a hidden chain end is recognised by an atom NAMED OXT
-        b["id"] = a["id"]
-        b["start"] = a["start"] + len(a["seq"]) + draw(st.sampled_from([0, 0, 5]))
-        hidden = True
-        if len(desc["chains"]) > 2 and draw(st.booleans()):
-            # a second hidden chain end in the same chain id
-            c = desc["chains"][2]
-            b["oxt"], b["ter"] = True, False
-            c["id"] = a["id"]
-            c["start"] = b["start"] + len(b["seq"]) + draw(st.sampled_from([0, 3]))
+        # hidden chain end(s): same chain id, no TER, OXT present on the part before
+        hidden = e2e.add_hidden_ends(draw, desc)
     opts = []
     if ff == "PARSE":
         if draw(st.integers(0, 2)) == 0:
